@@ -13,7 +13,10 @@ RULE = ("well-formed PELs with primary/secondary SRC sections from the independe
         "0..80, callouts after MRU/PCE/bare FRU, callout size/flags spelling 'ID' (0x49,0x44); each SRC is followed by a "
         "sentinel section; fixture message registry (in-order, reversed, repeated, brace-containing, per-type entries) "
         "on 3 of 4 shards.  Non-trivial: at least one SRC section; distinct = distinct encoded bytes.")
-ASSUMPTIONS = ["every well-formed callout carries a FRU identity substructure", "part number xor procedure",
+ASSUMPTIONS = ["a callout may lack the FRU identity (one in ten does; six in ten of those carry no substructure at all)",
+               "a PCE identity carries at least the padded terminator of its name (28 bytes or more), as the phosphor-logging "
+               "encoder writes it; one of exactly 24 bytes is not generated (the pinned tree rejects it through get_mem(0))",
+               "part number xor procedure",
                "hex words beyond the valid count are unconstrained", "Error Details required only when the fixture "
                "registry defines the reason code for the SRC type; %N with N <= number of argument sources"]
 
